@@ -176,3 +176,46 @@ def replay_known(pid, entry, work, log, mod):
         ok, why, tags = run_replay_file(pid, os.path.join(ov.VERIF, path), work, log)
         return ok
     return False
+
+
+def native_sweep(pid, work, log, module="patch", testname="replay_sweep_multi_hunk", target="lib", timeout=1800):
+    """Run a plain #[test] of a harness module natively (real containers, real memchr) on /repo's current tree.
+    Returns (failed: bool|None, text)."""
+    rov = os.path.join(work, "ov_sweep")
+    rgen = os.path.join(work, "gen_sweep")
+    shutil.rmtree(rov, ignore_errors=True)
+    shutil.rmtree(rgen, ignore_errors=True)
+    try:
+        ov.make_overlay(rov, modules=[module], real_memchr=True)
+    except ov.OverlayError as e:
+        return None, "overlay: %s" % e
+    os.makedirs(rgen)
+    for mname in ("patch", "patchpriv", "parser", "rej", "lines", "parallel", "common"):
+        open(os.path.join(rgen, "%s_inst.rs" % mname), "w").close()
+    from .runner import write_kf_consts
+    write_kf_consts(rgen, pid)
+    tdir = os.path.join(work, "t_sweep")
+    K.seed_target(tdir, "replay-" + target, False)
+    failed, txt = native_playback(rov, rgen, testname, target, tdir, os.path.join(work, "sweep_%s.log" % testname), timeout=timeout)
+    return failed, txt
+
+
+def replay_by_sweep(pid, v, work, log, module="patch", testname="replay_sweep_multi_hunk"):
+    res = {"reproduced": False, "name": v.get("name"), "path": None, "why": "", "tags": []}
+    failed, txt = native_sweep(pid, work, log, module, testname)
+    if failed:
+        m = re.search(r"panicked at [^\n]*\n([^\n]*)", txt)
+        msg = m.group(1) if m else "native sweep failed"
+        d = os.path.join(REPLAYS, pid)
+        os.makedirs(d, exist_ok=True)
+        path = os.path.join(d, "sweep_%s.txt" % testname)
+        with open(path, "w") as f:
+            f.write("native test %s (harness/patch_h.rs) on /repo's current tree, real Vec:\n%s\n" % (testname, msg[:4000]))
+        log("  reproduced natively by the sweep: %s" % msg[:300])
+        res.update(reproduced=True, path=path, what=msg[:400], tags=["sweep"])
+    elif failed is None:
+        res["why"] = "native sweep did not run: %s" % txt[-300:]
+    else:
+        cands = "; ".join(c.get("what", "") for c in v.get("candidates", [])[:2])
+        res["why"] = "the native sweep (400k random multi-hunk cases against the reference) found no violating input; candidate: %s" % cands[:300]
+    return res
